@@ -191,8 +191,10 @@ func checkStateConsts(c *Ctx, eng, pkg, label string) {
 	}
 }
 
+var c09TransRule = "C09-TRANS"
+
 func checkTransitions(c *Ctx, pkg, label string) {
-	rule := "C09-TRANS"
+	rule := c09TransRule
 	var found []transition
 	type helper struct {
 		fn       *ssa.Function
@@ -395,7 +397,7 @@ func checkTransitions(c *Ctx, pkg, label string) {
 }
 
 func checkWouldMining(c *Ctx, pkg, label string) {
-	rule := "C09-TRANS"
+	rule := c09TransRule
 	short := strings.TrimPrefix(pkg, repoMod+"/")
 	sp := c.MustFn(rule, short, "(*SpaceKeeper).spacePlotter")
 	if sp == nil {
